@@ -166,6 +166,9 @@ pub struct Alph {
     pub after_disconnect: bool,
     /// values the application may pass to set_pingresp_recv_timeout() at any time
     pub set_pingresp_to: Vec<u64>,
+    /// identifiers the application reserves itself (register_packet_id) for a publish instead of acquiring
+    /// the lowest free one: exchanges with large identifier values (256, type maximum)
+    pub pub_ids: Vec<u32>,
     /// option setters the application may call at any time (0 = set_auto_pub_response, 1 =
     /// set_offline_publish); each toggles the current value
     pub toggle_opts: Vec<u8>,
@@ -237,6 +240,8 @@ pub enum Act {
     Connect(u8),
     Connack(u8),
     Pub { q: u8, t: u8, al: Al, fail: bool },
+    /// register_packet_id(id), then PUBLISH QoS q with it
+    PubReg { q: u8, id: u32 },
     Sub { fail: bool },
     Unsub,
     Pingreq,
@@ -281,6 +286,7 @@ pub fn act_kind(a: &Act) -> String {
         Act::Connect(_) => "Connect".into(),
         Act::Connack(_) => "Connack".into(),
         Act::Pub { q, al, fail, .. } => format!("Pub(q{}{}{})", q, match al { Al::No => "", Al::Reg(_) => ",reg-alias", Al::Use(_) => ",use-alias" }, if *fail { ",send-fails" } else { "" }),
+        Act::PubReg { q, .. } => format!("PubReg(q{q})"),
         Act::Sub { fail } => format!("Sub{}", if *fail { "(send-fails)" } else { "" }),
         Act::Unsub => "Unsub".into(),
         Act::Pingreq => "Pingreq".into(),
@@ -983,6 +989,15 @@ impl<P: Pid> World for Ep<P> {
                     }
                 }
             }
+            for &id in &al.pub_ids {
+                if !m.ids.contains_key(&id) {
+                    for &q in &al.pub_q {
+                        if q > 0 {
+                            v.push(Act::PubReg { q, id });
+                        }
+                    }
+                }
+            }
             if m.as_client {
                 if al.sub {
                     v.push(Act::Sub { fail: false });
@@ -1248,6 +1263,16 @@ impl<P: Pid> World for Ep<P> {
                         self.m.send_fails += 1;
                         self.m.close_pending = true;
                     }
+                }
+            }
+            Act::PubReg { q, id } => {
+                let r = self.conn.register(*id);
+                let ok = r.is_ok();
+                calls.push(Call { kind: CallKind::Register(*id, r), evs: vec![] });
+                if ok {
+                    let ap = self.publish_ap(*q, 0, Al::No, Some(*id), false);
+                    let c = self.lib_send(&ap);
+                    calls.push(c);
                 }
             }
             Act::Sub { fail } => {
